@@ -26,6 +26,9 @@
            texts gives the team's text / splitLines gives the members' texts back
     stream <op>*     ops as in the harness: c cpp mql py list dump inline tree graphviz long short pf<n> print fresh
         -> one `flag:long:L<k>` (language(symbol::format(k))) or `flag:long:F<callee>` per print
+    repl <s hex> <from hex> <to hex>
+        -> `<hex of replaceAll s from to> <hex of the EXTRACTED body of vita::replace_all run on (s, from, to) | fault> lit=b`
+           lit : the result is the segmentation `occSplit from s` (which ignores `to`) joined with `to` verbatim
     term <fmt> <k> <hex text> <bits>   -> hex of the terminal's display
     parse <fmt> <hex>                  -> `some`/`none` and the token count
   tree ::= F <symbol index> <n> tree*n | T <terminal index> <hex text> <bits>
@@ -34,6 +37,8 @@ import Vita.C19.Model
 import Vita.C19.Genome
 import Vita.C19.GenExport
 import Vita.C19.Exact
+import Vita.C19.Replace
+import Vita.C19.GenReplace
 open Vita.C19
 
 def hexVal (c : Char) : Nat :=
@@ -222,6 +227,15 @@ def answer (line : String) : String :=
           " ".intercalate (out.map fun (pf, lf, sh) =>
             s!"{pf}:{lf}:" ++ (match sh with | .lang k => s!"L{k}" | .fn c => "F" ++ c))
       | none => "bad-op"
+  | ["repl", hs, hf, ht] =>
+      let s := unhex hs
+      let frm := unhex hf
+      let to := unhex ht
+      let m := replaceAll s frm to
+      let code := match runBody Gen.replaceAllBody s frm to with
+                  | some r => hex r
+                  | none => "fault"
+      s!"{hex m} {code} lit={b01 (frm.isEmpty || joinWith to (occSplit frm s) == m)}"
   | ["term", fm, k, h, b] =>
       match fm.toNat?, k.toNat?, b.toNat? with
       | some fi, some k, some b => hex (termStr Gen.terminals (Fmt.ofIdx fi) k (unhex h) b)
